@@ -1182,7 +1182,13 @@ class Mesh:
 
         """
         elements = self.normalize_elements(elements)
-        p, t, ix = self._reix(self.t[:, elements])
+        if self.doflocs.shape[1] > self.nvertices:
+            # higher-order mesh: carry also the nodes on edges, facets and
+            # interiors; __post_init__ sorts them out of the extra rows of t
+            p, t, ix = self._reix(self.dofs.element_dofs[:, elements])
+            ix = ix[:len(np.unique(self.t[:, elements]))]
+        else:
+            p, t, ix = self._reix(self.t[:, elements])
 
         new_subdomains = None
         if not skip_subdomains and self.subdomains is not None:
@@ -1236,7 +1242,11 @@ class Mesh:
                                           elements))
 
     def remove_unused_nodes(self):
-        p, t, _ = self._reix(self.t)
+        if self.doflocs.shape[1] > self.nvertices:
+            # higher-order mesh: the nodes in use are those of element_dofs
+            p, t, _ = self._reix(self.dofs.element_dofs)
+        else:
+            p, t, _ = self._reix(self.t)
         return replace(
             self,
             doflocs=p,
